@@ -81,7 +81,7 @@ func runDump(_ []byte) (*reg.Result, error) {
 
 // ---------------------------------------------------------------- images
 
-var fileIDs = map[string]string{"dira/x.proto": "x", "dira/sub/y.proto": "y", "dirb/z.proto": "z", "imp/i.proto": "imp", "dira/s1.proto": "s1", "dirb/s2.proto": "s2"}
+var fileIDs = map[string]string{"dira/x.proto": "x", "dira/sub/y.proto": "y", "dirb/z.proto": "z", "imp/i.proto": "imp", "imp/j.proto": "imp2", "dira/s1.proto": "s1", "dirb/s2.proto": "s2"}
 
 func lintSource(pkg, suffix string, imports string) string {
 	return `syntax = "proto3";
@@ -119,13 +119,19 @@ func commentedRange(src string) (int, int) {
 }
 
 func lintFiles() map[string]string {
+	// s1 / s2: one package, two go_package values, each option statement under an ignore comment
+	goPkg := func(v string) string {
+		return "// buf:lint:ignore PACKAGE_SAME_GO_PACKAGE\noption go_package = \"example.com/" + v + "\";"
+	}
 	return map[string]string{
-		"dira/x.proto":     lintSource("dira", "X", "import \"imp/i.proto\";"),
+		"dira/x.proto":     lintSource("dira", "X", "import \"imp/i.proto\";\nimport \"imp/j.proto\";\noption java_package = \"com.dira\";"),
 		"dira/sub/y.proto": lintSource("dira.sub", "Y", ""),
 		"dirb/z.proto":     lintSource("dirb", "Z", ""),
 		"imp/i.proto":      lintSource("imp", "I", ""),
-		"dira/s1.proto":    lintSource("shared", "S1", ""),
-		"dirb/s2.proto":    lintSource("shared", "S2", ""),
+		// only an import, but it declares the package of x, elsewhere and with another java_package
+		"imp/j.proto":   lintSource("dira", "J", "option java_package = \"com.other\";"),
+		"dira/s1.proto": lintSource("shared", "S1", goPkg("s1")),
+		"dirb/s2.proto": lintSource("shared", "S2", goPkg("s2")),
 	}
 }
 
@@ -215,6 +221,8 @@ type world struct {
 	lintImage       bufimage.Image
 	cur, prev       bufimage.Image
 	commentedRanges map[string][2]int
+	// commentedOptionLine: the line of an option statement that sits under an ignore comment (0 = none)
+	commentedOptionLine map[string]int
 }
 
 func annKey(a bufx.Annotation) string {
@@ -225,6 +233,9 @@ func (w *world) triple(kind string, a bufx.Annotation) string {
 	commented := false
 	if strings.HasPrefix(kind, "lint") {
 		if r, ok := w.commentedRanges[a.Path]; ok && a.StartLine >= r[0] && a.StartLine <= r[1] {
+			commented = true
+		}
+		if l := w.commentedOptionLine[a.Path]; l != 0 && a.StartLine == l {
 			commented = true
 		}
 	}
@@ -333,11 +344,16 @@ func runReplay(in []byte) (*reg.Result, error) {
 	if err != nil {
 		return nil, err
 	}
-	w := &world{commentedRanges: map[string][2]int{}}
+	w := &world{commentedRanges: map[string][2]int{}, commentedOptionLine: map[string]int{}}
 	lf := lintFiles()
 	for p, src := range lf {
 		s, e := commentedRange(src)
 		w.commentedRanges[p] = [2]int{s - 3, e} // the ignore comments sit on the two lines above
+		for i, l := range strings.Split(src, "\n") {
+			if strings.HasPrefix(l, "option go_package") {
+				w.commentedOptionLine[p] = i + 1
+			}
+		}
 	}
 	if w.lintImage, err = buildImage(ctx, lf); err != nil {
 		return nil, err
